@@ -321,8 +321,9 @@ func Pre(op Op, a, b modeling.Mesh) (ok, checked bool) {
 		return tri && hasPos, true
 	case "flip":
 		return tri, true
-	case "laplacian", "laplacianaxis":
-		return tri && hasPos, true
+	case "laplacian", "laplacianaxis": // the neighbour table exists for triangles and the three line topologies
+		t := a.Topology()
+		return (tri || t == modeling.LineTopology || t == modeling.LineStripTopology || t == modeling.LineLoopTopology) && hasPos, true
 	case "scalealongnormal":
 		return hasPos && hasNrm, true
 	case "translateattr", "rotateattr":
